@@ -48,6 +48,10 @@ def inputs(seed):
         p = programs.Gen(r).program()
         toks = mutate.random_edits(programs.all_tokens(p), r, 2, mutate.FULL_VOCAB)
         ins.append(({"main": " ".join(toks)}, "main"))
+    # inputs that drive library calls into their error paths (strtol overflow, range errors): sticky per-thread state
+    # such as errno must not leak into later compilations
+    ins.append(({"main": "x := 100000000000000000000"}, "main"))
+    ins.append(({"main": "DEFINE PRIO 99999999999999999999999 a AS $18446744073709551616 END DEFINE\nx := a"}, "main"))
     ins.append(({"main": 'include "nofile"\nx := 1'}, "main"))
     ins.append(({"a": "x := 1"}, "main"))
     return ins
